@@ -9,7 +9,7 @@ Open Scope Z_scope.
 (* _clean_up_state with the constants of the CURRENT source; clock ticks = microseconds *)
 Definition cfg_now : cfg :=
   mkCfg (cleanup_age_s * 1000000) cleanup_cmp_gt cleanup_needs_done cleanup_needs_not_activated done_statuses
-        cleanup_purges_children cleanup_purges_scopes.
+        cleanup_purges_children cleanup_purges_scopes cleanup_needs_unneeded.
 
 Definition cleanup_now : Z -> state -> option state := cleanup cfg_now.
 
